@@ -134,6 +134,17 @@ _OUTS = {"decl": 'method="xml"', "standalone": 'method="xml" standalone="yes"', 
          "utf16": 'method="xml" encoding="UTF-16"', "latin1": 'method="xml" encoding="ISO-8859-1"', "ver11": 'method="xml" version="1.1"',
          "indent": 'method="xml" indent="yes"', "media": 'method="xml" media-type="text/x" omit-xml-declaration="yes"'}
 
+# run-time QName resolution (one scratch QName per execution context serves every such lookup): declared, undeclared and
+# unprefixed names, through every function that resolves a QName at run time
+_QN = {
+    "fa_undecl": "function-available('q:f')", "fa_decl": "function-available('ext:f1')", "fa_plain": "function-available('concat')",
+    "ea_undecl": "element-available('q:e')", "ea_decl": "element-available('xsl:if')", "ea_plain": "element-available('e')",
+    "fn_undecl": "format-number(1.5, '0.0', 'q:df')", "fn_plain": "format-number(1.5, '0.0', 'nodf')",
+    "key_undecl": "count(key('q:k', 1))", "key_plain": "count(key('k', 1))",
+    "sp_undecl": "system-property('q:p')", "sp_decl": "system-property('xsl:version')", "sp_plain": "system-property('p')",
+    "fa_xml": "function-available('xml:f')", "fa_empty_prefix": "function-available(':f')",
+}
+
 SHEETS = {
     # ---- observers
     "obs": _sheet(OUT_XML, "", '<out><xsl:call-template name="observe"/></out>'),
@@ -217,6 +228,9 @@ for _k, _a in _SYMS.items():
     SHEETS["sym_" + _k] = _sym(_a)
 for _k, _b in _RTF_ABORTS.items():
     SHEETS["rtf_abort_" + _k] = _sheet(OUT_XML, "", "<out>" + _b + "</out>")
+for _k, _e in _QN.items():
+    # the lookup alone first, then the observer (which itself resolves declared-prefix names)
+    SHEETS["qn_" + _k] = _sheet(OUT_XML, "", '<out><q><xsl:value-of select="%s"/></q><xsl:call-template name="observe"/><q2><xsl:value-of select="%s"/></q2></out>' % (_e, _e))
 for _k, _o in _OUTS.items():
     SHEETS["out_" + _k] = _sheet("<xsl:output %s/>" % _o, "", '<out><xsl:call-template name="observe"/></out>')
 BAD_SHEETS = {"bad", "bad_wf"}
@@ -231,7 +245,7 @@ SOURCES = {
 BAD_SOURCES = {"dbad"}
 
 GOOD_SHEETS = sorted(k for k in SHEETS if k not in BAD_SHEETS)
-OBSERVERS = [k for k in GOOD_SHEETS if k.startswith(("obs", "coll_", "fmt_df", "sym_", "out_")) or k in ("nest_ok", "num_any_all")]
+OBSERVERS = [k for k in GOOD_SHEETS if k.startswith(("obs", "coll_", "fmt_df", "sym_", "out_", "qn_")) or k in ("nest_ok", "num_any_all")]
 ABORTERS = [k for k in GOOD_SHEETS if k not in OBSERVERS]
 # (stylesheet, source) pairs for the memory probe: live bytes of the transformer's MemoryManager must not grow per call
 LEAK_PROBES = [("obs", "d1"), ("rtf_abort_nested", "d1"), ("num_any_err", "d4"), ("coll_sv_upper", "d4"), ("sort_avt", "d1"), ("sort_fnerr", "d2"), ("key_err", "d1"), ("msg_deep", "d1"), ("xperr_deep", "d1"), ("msg_rtf", "d2"), ("nest_abort", "d2"), ("enc_unknown", "d1")]
@@ -421,6 +435,11 @@ CORPUS = [
     ("formatter-listener-target", ["compile 0 obs_text ok", "compile 1 num_any_all ok", "parse 0 d4 ok", "parse 1 d1 ok", "transformfl 0 0 1", "transformfl 1 0 2",
                                    "dsource 0", "parse 0 d2 ok", "transformfl 0 0 3", "transformfl 1 0 4", "transform 0 0 5", "transformfl 0 1 6",
                                    "dsource 1", "parse 1 d4 ok", "transformfl 1 1 7", "transformfl 0 1 8", "transform 1 1 9"]),
+    # run-time QName lookups in every order: each one alone on a new transformer history, after a declared-prefix lookup, after
+    # an undeclared one, across transformations
+    ("qname-lookups", sum([["transformsrc qn_%s d1 %d" % (k, i), "transformsrc obs d1 %d" % i, "transformsrc qn_%s d1 %d" % (k, i)]
+                           for i, k in enumerate(sorted(_QN))], [])),
+    ("qname-lookups-first", ["transformsrc qn_fa_undecl d1 1"]),
     ("param-overwrite", ["setexpr p1 'a'", "setnum p1 5", "transformsrc obs d1 1"]),
     ("param-overwrite-2", ["setnum p1 5", "setexpr p1 'a'", "setnum p1 7", "compile 0 obs ok", "parse 0 d1 ok", "transform 0 0 2"]),
     # abort at depth, then observe with another source at (very likely) the same address
